@@ -1,11 +1,13 @@
 """Shared by C02/C10/C11: script format, generators, output parser and the property
 monitors for the generic runtime scripts (coq/Runtime/Model.v `run`, harness/src/bin/rt.rs).
 
-script: n t u start budget  nb {bcall}  K {na {action}}  np {time label}  {sop}
+script: n t u start budget cbk cbt  nb {bcall}  K {na {action}}  np {time label}  {sop}
   bcall  = 1 n (max_itr) | 2 T (max_time) | 3 tree (limit)
   tree   = 0 | 1 n | 2 T | 3 tree tree (And) | 4 tree tree (Or)
   action = kind x label   (kind 0: add_event_in(label, x); else add_event(label, x))
   sop    = 1 k | 2 T | 3 time label
+cbk > 0: while the cbk-th event of each run is being handled another thread calls Builder::build with start time cbt
+  (the model ignores both)
 every time is in units of u ns (u = 0 means 1) and printed divided by u; n, t are plain ns
 output: three blocks (U: no limit, A: configured limit via run(), B: stepped), each
   {1 | 9 1}^np  [step records]  4 count end  nlog {label now}  nadds {time label now ctx ok}  nrem {time label}
@@ -13,15 +15,15 @@ output: three blocks (U: no limit, A: configured limit via run(), B: stepped), e
 
 # ----------------------------------------------------------------------------- structure
 class Script:
-    def __init__(self, n=4, t=1, start=0, budget=0, calls=None, table=None, pre=None, sched=None, unit=0):
-        self.n, self.t, self.start, self.budget, self.unit = n, t, start, budget, unit
+    def __init__(self, n=4, t=1, start=0, budget=0, calls=None, table=None, pre=None, sched=None, unit=0, cb=(0, 0)):
+        self.n, self.t, self.start, self.budget, self.unit, self.cb = n, t, start, budget, unit, tuple(cb)
         self.calls = calls or []      # ('itr', n) | ('time', T) | ('limit', tree)
         self.table = table or []      # list of list of (kind, x, label)
         self.pre = pre or []          # (time, label)
         self.sched = sched or []      # (1,k) | (2,T) | (3,time,label)
 
     def encode(self):
-        out = [self.n, self.t, self.unit, self.start, self.budget, len(self.calls)]
+        out = [self.n, self.t, self.unit, self.start, self.budget, self.cb[0], self.cb[1], len(self.calls)]
         for c in self.calls:
             if c[0] == 'itr':
                 out += [1, c[1]]
@@ -94,6 +96,7 @@ def decode(script):
     c = Cur(script[3:])
     s.start = c.next()
     s.budget = c.next()
+    s.cb = (c.next(), c.next())
 
     def bc(c):
         tag = c.next()
@@ -127,11 +130,11 @@ def split(script):
         ops += [('act', lb, a) for a in acts]
     ops += [('pre', p) for p in s.pre]
     ops += [('sop', o) for o in s.sched]
-    return [s.n, s.t, s.start, s.budget, len(s.table), s.unit], ops
+    return [s.n, s.t, s.start, s.budget, len(s.table), s.unit, s.cb[0], s.cb[1]], ops
 
 
 def join(hdr, ops):
-    s = Script(hdr[0], hdr[1], hdr[2], hdr[3], unit=hdr[5])
+    s = Script(hdr[0], hdr[1], hdr[2], hdr[3], unit=hdr[5], cb=(hdr[6], hdr[7]))
     s.table = [[] for _ in range(hdr[4])]
     for o in ops:
         if o[0] == 'call':
@@ -159,6 +162,8 @@ def show_tree(tr):
 def pretty(script):
     s = decode(script)
     parts = ["cqueue(n=%d,t=%dns) unit=%dns start_time=%d budget=%d" % (s.n, s.t, s.unit or 1, s.start, s.budget)]
+    if s.cb[0]:
+        parts.append("another thread calls Builder::start_time(%d).build() during event #%d" % (s.cb[1], s.cb[0]))
     for c in s.calls:
         parts.append({'itr': "max_itr(%d)", 'time': "max_time(%d)"}[c[0]] % c[1] if c[0] != 'limit' else "limit(%s)" % show_tree(c[1]))
     for lb, acts in enumerate(s.table):
@@ -602,6 +607,17 @@ def gen_program(rng, below_start=True, at_start=True, beyond=None):
     return Script(n, t, start, budget, [], table, pre, [], unit)
 
 
+def add_concurrent_build(rng, s, share=0.08):
+    """With a modest probability: during one of the first events of each run another thread calls Builder::build
+    with a start time before / after / equal to the running simulation's clock (each such run costs a few ms)."""
+    if rng.random() < share:
+        total = len(unlimited(s))
+        if total > 0:
+            k = rng.randint(1, min(total, 4))
+            s.cb = (k, rng.choice([0, 0, s.start + 1000003, max(0, s.start - 1), s.start + 1]))
+    return s
+
+
 def interesting_times(log, start, rng):
     ts = sorted(set(t for (_, t) in log)) or [start]
     c = rng.random()
@@ -722,6 +738,8 @@ def mechanisms(script, out):
         m.add("start_nonzero")
         if any(p[0] < s.start for p in s.pre): m.add("pre_add_below_start")
         if any(p[0] == s.start for p in s.pre): m.add("pre_add_at_start")
+    if s.cb[0] and s.cb[0] <= len(U["log"]):
+        m.add("concurrent_build")
     un = s.unit or 1
     if s.start * un >= 1 << 64: m.add("start_beyond_2^64ns")
     elif times and times[-1] * un >= 1 << 64: m.add("run_crosses_2^64ns")
